@@ -7,6 +7,7 @@ import itertools
 
 from mc import lib
 
+CASE_TIMEOUT_S = 600      # wall-clock horizon per state (states of this check bundle many sub-states; generous for loaded machines)
 PROPERTY = 'C17'
 RULE = ('full product: every sorted list (multiset) A of length 0..L over the grid {50,100,100.25,100.5,101,102,200} x every '
         'such list B x {th: 0,0.25,0.5,1,150; ppm: 0,2500,5000,10000,1e6} x {all,closest,largest} x every intensity '
